@@ -406,6 +406,11 @@ type Result struct {
 	WellFormed string      `json:"well_formed,omitempty"` // "" if ok, else what is wrong
 }
 
+// IsRedirect: any HTTP redirect status (the properties speak of redirects, not of a particular 3xx code).
+func IsRedirect(status int) bool {
+	return status == 301 || status == 302 || status == 303 || status == 307 || status == 308
+}
+
 func CookieName(prefix string) string {
 	if prefix != "" {
 		return "__Host-" + prefix + "-authservice-session-id-cookie"
@@ -614,10 +619,28 @@ func (w *World) StoreDump(withTimes bool) string {
 // HasTokens reports whether the real store currently holds tokens under sid (white-box, no side effects).
 func (w *World) HasAnything(sid string) bool {
 	if w.Mini != nil {
-		return w.Mini.Exists(sid)
+		return RedisKeyFor(w.Mini, 0, sid) != ""
 	}
 	_, ok := oidc.VerifMemorySnapshot(w.Raw)[sid]
 	return ok
+}
+
+// RedisKeyFor finds the key under which a store keeps session sid (the id itself today; a key that merely contains
+// the id is accepted so that a key-naming scheme is not mistaken for a missing session).
+func RedisKeyFor(m *miniredis.Miniredis, db int, sid string) string {
+	d := m.DB(db)
+	if d.Exists(sid) {
+		return sid
+	}
+	if sid == "" {
+		return ""
+	}
+	for _, k := range d.Keys() {
+		if strings.Contains(k, sid) {
+			return k
+		}
+	}
+	return ""
 }
 
 // Canon renames every generated atom (session ids, states, nonces, verifiers, codes, tokens) by order of first
